@@ -141,13 +141,13 @@ func (n *Node) call(name string, f func()) (cerr *CallErr) {
 	defer func() {
 		if r := recover(); r != nil {
 			n.Dead = true
+			st := string(debug.Stack())
+			if rp, ok := r.(relayedPanic); ok { // raised in the call's own goroutine / a scheduled task
+				r, st = rp.V, rp.Stack
+			}
 			if _, ok := r.(simdb.CrashSentinel); ok {
 				cerr = &CallErr{Call: name, Crash: true}
 				return
-			}
-			st := string(debug.Stack())
-			if rp, ok := r.(relayedPanic); ok { // raised in a scheduled task goroutine (C25 tier B)
-				r, st = rp.V, rp.Stack
 			}
 			msg := fmt.Sprint(r)
 			if len(msg) > 300 {
@@ -158,11 +158,41 @@ func (n *Node) call(name string, f func()) (cerr *CallErr) {
 	}()
 	if n.Inter != nil {
 		n.Inter(name, f)
-	} else {
+		return nil
+	}
+	// the call runs in its own goroutine so that one that never returns (an endless loop in the
+	// application) is reported instead of hanging the simulator; panics are relayed to this goroutine
+	done := make(chan *relayedPanic, 1)
+	go func() {
+		defer func() {
+			if r := recover(); r != nil {
+				done <- &relayedPanic{V: r, Stack: string(debug.Stack())}
+				return
+			}
+			done <- nil
+		}()
 		f()
+	}()
+	select {
+	case rp := <-done:
+		if rp != nil {
+			panic(*rp)
+		}
+	case <-time.After(CallTimeout):
+		n.Dead = true
+		Hung = true
+		return &CallErr{Call: name, Panic: fmt.Sprintf("%s did not return within %v (endless loop or dead-lock in the application)", name, CallTimeout), Site: "hang"}
 	}
 	return nil
 }
+
+// CallTimeout bounds one ABCI call in real time. Ordinary calls take milliseconds (a payout block with a
+// thousand stakes well under a second), so two minutes on a loaded machine means the call does not return.
+var CallTimeout = 120 * time.Second
+
+// Hung is set once a call timed out: its goroutine is still running, so the process must not be used
+// for further measurements (the worker records the violation and exits).
+var Hung bool
 
 // relayedPanic carries a panic (and its stack) out of a scheduled task into the calling goroutine.
 type relayedPanic struct {
